@@ -926,7 +926,7 @@ var genericSrcs = []string{
 	"string(n) + string(l)", "get(l, 0, l[1])", "get(m, \"k1\", m[\"k2\"])", "if(b, n, x)", "b ? l : [n]",
 	"{a: n, b: l}", "[n, x]", "union(l, [n])", "intersect(l, [l[0], x])", "diff(l, l)", "isset(m, \"k1\") && isset(mi, 1)",
 	"get(mi, 1, mi[2])", "o.id == o.id", "[o.id, o.id]", "string(o)", "len(ll[0])", "lo[0].name == lo[1].name",
-	"mo[\"u\"].id", "[n: l, x: l]", "get(p.b, p.a)", "[p.a, get(p.b, p.a)]", "union(lo, lo) == lo", "m == m && mi == mi", "string(mt)", "len(mt) + len(m)", "[mt, mt][0] == mt",
+	"mo[\"u\"].id", "[n: l, x: l]", "get(p.b, p.a)", "[p.a, get(p.b, p.a)]", "union(lo, lo) == lo", "m == m && mi == mi", "len(ls)", "len(ls) + len(l)", "string(mt)", "len(mt) + len(m)", "[mt, mt][0] == mt",
 	"[m[\"k1\"], m[\"k2\"]] == [m[\"k1\"], m[\"k2\"]]", "string([n: x])", "print(n) == n",
 	"[print(n), print(x)]", "print(s) == print(s)", "print(o).id", "len(print(l)) + len(print(m))", "print(string(print(ls)))",
 	// empty literals (the checker annotates their nodes like any other)
@@ -1005,6 +1005,10 @@ var progPool = []Prog{
 	{"string(\"item\") + \"#\" + string(n)", "struct", false, false},
 	{"string(o.name) + s + string(ls[0])", "map", false, false},
 	{"string(ls[0]) + \"x\" + ls[0]", "struct", false, false},
+	// two unions over one list: neither result may share storage with the list or with the other
+	{"[union(l, [9]), union(l, [8])]", "map", false, false},
+	{"union(l, [4]) == union(l, [5])", "struct", false, false},
+	{"[union(ls, [\"p\"]), union(ls, [\"q\"]), ls]", "map", false, false},
 	{"string(t)", "map", false, false},
 	{"[t, '2020-01-02 03:04:05']", "struct", false, false},
 	{"{w: t, z: strtotime(\"@86400\")}", "map", false, false},
